@@ -75,9 +75,9 @@ theorem sigStop_frame (s : S) (h : Nat) :
   · exact ⟨rfl, rfl, rfl⟩
   · split <;> (try split) <;> exact ⟨rfl, rfl, rfl⟩
 
-theorem sigStart_frame (s : S) (h sig : Nat) (os : Bool) :
-    (sigStart s h sig os).1.trace = s.trace ∧ (sigStart s h sig os).1.pipes = s.pipes ∧
-    (sigStart s h sig os).1.ncb = s.ncb := by
+theorem sigStart_frame (s : S) (h sig : Nat) (os : Bool) (cb : Nat) :
+    (sigStart s h sig os cb).1.trace = s.trace ∧ (sigStart s h sig os cb).1.pipes = s.pipes ∧
+    (sigStart s h sig os cb).1.ncb = s.ncb := by
   have h1 := sigStop_frame s h
   unfold sigStart
   split
@@ -99,8 +99,8 @@ theorem sigStart_frame (s : S) (h sig : Nat) (os : Bool) :
 theorem applyOp_frame (s : S) (o : Op) :
     (applyOp s o).1.trace = s.trace ∧ (applyOp s o).1.pipes = s.pipes ∧ (applyOp s o).1.ncb = s.ncb := by
   cases o <;> simp only [applyOp] <;> split <;> (try exact ⟨rfl, rfl, rfl⟩)
-  · exact sigStart_frame s _ _ false
-  · exact sigStart_frame s _ _ true
+  · exact sigStart_frame s _ _ false _
+  · exact sigStart_frame s _ _ true _
   · exact sigStop_frame s _
   · exact sigStop_frame s _
 
@@ -126,8 +126,8 @@ theorem dispatch_one_callback (sc : Script) (s : S) (L : Nat) (m : Msg) :
   simp only
   split
   · rename_i hm
-    have h1 := runOps_frame { s with trace := .signal m.h m.sig L m.gen (s.hs m.h).gen :: s.trace, ncb := s.ncb + 1 } (sc s.ncb)
-    generalize runOps { s with trace := .signal m.h m.sig L m.gen (s.hs m.h).gen :: s.trace, ncb := s.ncb + 1 } (sc s.ncb) = s1 at h1
+    have h1 := runOps_frame { s with trace := .signal m.h m.sig L m.gen (s.hs m.h).gen :: s.trace, ncb := s.ncb + 1, cbLog := (s.hs m.h).cb :: s.cbLog } (sc s.ncb)
+    generalize runOps { s with trace := .signal m.h m.sig L m.gen (s.hs m.h).gen :: s.trace, ncb := s.ncb + 1, cbLog := (s.hs m.h).cb :: s.cbLog } (sc s.ncb) = s1 at h1
     split
     · rw [(sigStop_frame _ _).1, (sigStop_frame _ _).2.1]; exact ⟨by simpa using h1.1, h1.2.1⟩
     · exact ⟨by simpa using h1.1, h1.2.1⟩
@@ -268,10 +268,10 @@ example : w1.disp 10 = .uv false ∧ (runEvs (fun _ => []) w1 [.op (.stop 1)]).d
 /-- `restart_is_fresh_oneshot_bit` (full strength since the L2 fix): starting a stopped handle with
 `uv_signal_start` gives a regular handle watching `sig`, whatever its history (and with
 `uv_signal_start_oneshot` a one-shot one); the incarnation is new. -/
-theorem restart_is_fresh_oneshot_bit (s : S) (h sig : Nat) (os : Bool)
-    (hstopped : (s.hs h).signum = 0) (hok : (sigStart s h sig os).2 = 0) :
-    ((sigStart s h sig os).1.hs h).oneshot = os ∧ ((sigStart s h sig os).1.hs h).signum = sig ∧
-    ((sigStart s h sig os).1.hs h).gen = (s.hs h).gen + 1 := by
+theorem restart_is_fresh_oneshot_bit (s : S) (h sig : Nat) (os : Bool) (cb : Nat)
+    (hstopped : (s.hs h).signum = 0) (hok : (sigStart s h sig os cb).2 = 0) :
+    ((sigStart s h sig os cb).1.hs h).oneshot = os ∧ ((sigStart s h sig os cb).1.hs h).signum = sig ∧
+    ((sigStart s h sig os cb).1.hs h).gen = (s.hs h).gen + 1 := by
   unfold sigStart at hok ⊢
   split at hok
   · simp at hok
@@ -292,7 +292,7 @@ theorem restart_is_fresh_oneshot_bit (s : S) (h sig : Nat) (os : Bool)
     · simp only [hv, Bool.false_eq_true, ↓reduceIte]; intro _; split <;> simp [register]
 
 example : let s := runEvs (fun _ => []) (init (fun _ => 0)) [.op (.oneshot 0 10), .deliver 10, .dispatch 0]
-    (s.hs 0).oneshot = true ∧ (s.hs 0).signum = 0 ∧ ((sigStart s 0 12 false).1.hs 0).oneshot = false := by decide
+    (s.hs 0).oneshot = true ∧ (s.hs 0).signum = 0 ∧ ((sigStart s 0 12 false 0).1.hs 0).oneshot = false := by decide
 
 /-- **Full statement, FALSE (L10).**  `restart_is_fresh` in the strong sense: every signal callback
 is for a signal caught by the *current* incarnation of the handle (a handle restarted after
@@ -316,12 +316,12 @@ def FreshH (s : S) (h : Nat) : Prop :=
 /-- `restart_is_fresh_partial` (a): a (re)start establishes `FreshH` when no pipe holds a message for
 the handle carrying the new signum — in particular when the loop's pipe holds no message for it, or
 when the new signum differs from that of every message still in flight. -/
-theorem restart_is_fresh_partial_start (s : S) (h sig : Nat) (os : Bool)
-    (hstopped : (s.hs h).signum = 0) (hok : (sigStart s h sig os).2 = 0)
-    (hnone : ∀ L, ∀ m ∈ s.pipes L, m.h = h → m.sig ≠ sig) : FreshH (sigStart s h sig os).1 h := by
+theorem restart_is_fresh_partial_start (s : S) (h sig : Nat) (os : Bool) (cb : Nat)
+    (hstopped : (s.hs h).signum = 0) (hok : (sigStart s h sig os cb).2 = 0)
+    (hnone : ∀ L, ∀ m ∈ s.pipes L, m.h = h → m.sig ≠ sig) : FreshH (sigStart s h sig os cb).1 h := by
   intro L m hm hmh hms
-  rw [(sigStart_frame s h sig os).2.1] at hm
-  rw [(restart_is_fresh_oneshot_bit s h sig os hstopped hok).2.1] at hms
+  rw [(sigStart_frame s h sig os cb).2.1] at hm
+  rw [(restart_is_fresh_oneshot_bit s h sig os cb hstopped hok).2.1] at hms
   exact absurd hms (hnone L m hm hmh)
 
 /-- `restart_is_fresh_partial` (b): under `FreshH`, the callback produced for a message is for the
@@ -380,7 +380,7 @@ returned (e.g. it restarted itself in regular mode) `uv__signal_event` does not 
 theorem own_callback_restart_survives_partial (sc : Script) (s : S) (L : Nat) (m : Msg)
     (hreg : ((dispatchMsg sc s L m).hs m.h).oneshot = false) (hm : m.sig = (s.hs m.h).signum) :
     ((dispatchMsg sc s L m).hs m.h).signum =
-      ((runOps { s with trace := .signal m.h m.sig L m.gen (s.hs m.h).gen :: s.trace, ncb := s.ncb + 1 } (sc s.ncb)).hs m.h).signum := by
+      ((runOps { s with trace := .signal m.h m.sig L m.gen (s.hs m.h).gen :: s.trace, ncb := s.ncb + 1, cbLog := (s.hs m.h).cb :: s.cbLog } (sc s.ncb)).hs m.h).signum := by
   unfold dispatchMsg at hreg ⊢
   simp only [hm, ↓reduceIte] at hreg ⊢
   split
@@ -504,22 +504,23 @@ theorem restart_is_fresh_partial (loopOf : Nat → Nat) (sc : Script) (evs : Lis
 
 /-- what sets `stale`: only a start that goes past the short-circuit while a message for the handle
 with the same signum is pending in its loop's pipe. -/
-theorem sigStart_stale (s : S) (h sig : Nat) (os : Bool) (hst : (sigStart s h sig os).1.stale = true) :
+theorem sigStart_stale (s : S) (h sig : Nat) (os : Bool) (cb : Nat) (hst : (sigStart s h sig os cb).1.stale = true) :
     s.stale = true ∨ pendingSame (sigStop s h) h sig = true := by
   have hs := (sigStop_fields s h).2.2.2.2
-  rcases sigStart_shape s h sig os with e | e | ⟨tr, d', dl', e⟩
+  rcases sigStart_shape s h sig os cb with e | e | e | ⟨tr, d', dl', e⟩
+  · rw [e] at hst; exact Or.inl hst
   · rw [e] at hst; exact Or.inl hst
   · rw [e, hs] at hst; exact Or.inl hst
   · rw [e] at hst; simp only [Bool.or_eq_true] at hst; rw [hs] at hst; exact hst
 
 /-- and in a clean state with the loop's pipe free of messages for `h` carrying `sig` (in particular:
 empty pipe, or a different signum) a start keeps the run clean. -/
-theorem sigStart_keeps_clean (s : S) (h sig : Nat) (os : Bool) (hclean : s.stale = false)
-    (hnone : ∀ m ∈ s.pipes (s.hs h).loop, m.h = h → m.sig ≠ sig) : (sigStart s h sig os).1.stale = false := by
-  cases hst : (sigStart s h sig os).1.stale
+theorem sigStart_keeps_clean (s : S) (h sig : Nat) (os : Bool) (cb : Nat) (hclean : s.stale = false)
+    (hnone : ∀ m ∈ s.pipes (s.hs h).loop, m.h = h → m.sig ≠ sig) : (sigStart s h sig os cb).1.stale = false := by
+  cases hst : (sigStart s h sig os cb).1.stale
   · rfl
   · exfalso
-    rcases sigStart_stale s h sig os hst with h1 | h1
+    rcases sigStart_stale s h sig os cb hst with h1 | h1
     · rw [hclean] at h1; exact absurd h1 (by simp)
     · unfold pendingSame at h1
       rw [(sigStop_fields s h).2.1] at h1
@@ -536,5 +537,81 @@ example : (runEvs (fun _ => []) (init (fun _ => 0))
     [.op (.start 0 10), .deliver 10, .op (.stop 0), .op (.start 0 12), .dispatch 0, .op (.start 0 10), .deliver 10, .dispatch 0]).stale = false := by decide
 example : (runEvs (fun _ => []) (init (fun _ => 0))
     [.op (.start 0 10), .deliver 10, .op (.stop 0), .op (.start 0 10)]).stale = true := by decide
+
+
+/-! ## callback identity -/
+
+/-- every successful `uv_signal_start` / `uv_signal_start_oneshot` installs the callback it was given —
+also on the "already watching this signum" short-circuit, which changes nothing else (the handle keeps
+its signum, its one-shot mode and its incarnation). -/
+theorem start_stores_callback (s : S) (h sig : Nat) (os : Bool) (cb : Nat)
+    (hok : (sigStart s h sig os cb).2 = 0) : ((sigStart s h sig os cb).1.hs h).cb = cb := by
+  by_cases hsame : sig = (s.hs h).signum
+  · unfold sigStart at hok ⊢
+    split
+    · rename_i h0; simp [h0] at hok
+    · simp [hsame, setCb]
+  · unfold sigStart at hok ⊢
+    split
+    · rename_i h0; simp [h0] at hok
+    rename_i hsig
+    simp only [hsig, hsame, ↓reduceIte] at hok ⊢
+    generalize sigStop s h = s1 at hok ⊢
+    revert hok
+    cases hf : firstHandle s1.tree sig with
+    | none =>
+      simp only [Bool.true_and]
+      by_cases hv : sigValid sig = true
+      · simp [hv, register]
+      · simp [hv]
+    | some f =>
+      simp only
+      by_cases hv : (!os && f.os && !sigValid sig) = true
+      · simp [hv]
+      · simp only [hv, Bool.false_eq_true, ↓reduceIte]; intro _; split <;> simp [register]
+
+theorem restart_same_signum_only_callback (s : S) (h sig : Nat) (os : Bool) (cb : Nat)
+    (hsig : sig ≠ 0) (hsame : sig = (s.hs h).signum) :
+    (sigStart s h sig os cb) = (setCb s h cb, 0) := by
+  unfold sigStart; rw [if_neg hsig, if_pos hsame]
+
+/-- `uv__signal_event` invokes the callback that is installed at that moment: the id logged for a
+dispatched message is the handle's current `cb`. -/
+theorem dispatch_runs_current_callback (sc : Script) (s : S) (L : Nat) (m : Msg)
+    (hm : m.sig = (s.hs m.h).signum) :
+    (dispatchMsg sc s L m).cbLog = (s.hs m.h).cb :: s.cbLog := by
+  have hstop : ∀ (s2 : S) (h : Nat), (sigStop s2 h).cbLog = s2.cbLog := by
+    intro s2 h; unfold sigStop; simp only; split
+    · rfl
+    · split <;> (try split) <;> rfl
+  have hstart : ∀ (s2 : S) (h sig : Nat) (os : Bool) (cb : Nat), (sigStart s2 h sig os cb).1.cbLog = s2.cbLog := by
+    intro s2 h sig os cb
+    rcases sigStart_shape s2 h sig os cb with e | e | e | ⟨tr, d', dl', e⟩
+    · rw [e]
+    · rw [e]; rfl
+    · rw [e]; exact hstop s2 h
+    · rw [e]; exact hstop s2 h
+  have hop : ∀ (s2 : S) (o : Op), (applyOp s2 o).1.cbLog = s2.cbLog := by
+    intro s2 o
+    cases o <;> simp only [applyOp] <;> split <;> (try rfl)
+    · exact hstart _ _ _ _ _
+    · exact hstart _ _ _ _ _
+    · exact hstop _ _
+    · exact hstop _ _
+  have hops : ∀ (os : List Op) (s2 : S), (runOps s2 os).cbLog = s2.cbLog := by
+    intro os; induction os with
+    | nil => intro s2; rfl
+    | cons o os ih => intro s2; exact (ih _).trans (hop s2 o)
+  unfold dispatchMsg
+  simp only [hm, ↓reduceIte]
+  have h1 := hops (sc s.ncb) { s with trace := .signal m.h (s.hs m.h).signum L m.gen (s.hs m.h).gen :: s.trace, ncb := s.ncb + 1, cbLog := (s.hs m.h).cb :: s.cbLog }
+  generalize runOps { s with trace := .signal m.h (s.hs m.h).signum L m.gen (s.hs m.h).gen :: s.trace, ncb := s.ncb + 1, cbLog := (s.hs m.h).cb :: s.cbLog } (sc s.ncb) = s1 at h1
+  split
+  · rw [hstop]; exact h1
+  · exact h1
+
+example : (runEvs (fun _ => []) (init (fun _ => 0))
+    [.op (.start 0 10 0), .op (.start 0 10 1), .deliver 10, .dispatch 0, .op (.oneshot 0 10 2), .deliver 10, .dispatch 0]).cbLog = [2, 1] := by
+  decide
 
 end UvModel.Props.C13
